@@ -1,6 +1,7 @@
 package main
 
 import (
+	"go/ast"
 	"encoding/json"
 	"flag"
 	"fmt"
@@ -51,6 +52,8 @@ func main() {
 		os.Exit(cmdReplay(os.Args[2:]))
 	case "probes":
 		os.Exit(cmdProbes(os.Args[2:]))
+	case "loops":
+		os.Exit(cmdLoops(os.Args[2:]))
 	default:
 		fmt.Fprintln(os.Stderr, "unknown command", os.Args[1])
 		os.Exit(2)
@@ -756,4 +759,73 @@ func cmdProbes(args []string) int {
 		}
 	}
 	return rc
+}
+
+// countLoops: for and range statements of a body, nested function literals excluded.
+func countLoops(body ast.Node) int {
+	n := 0
+	ast.Inspect(body, func(m ast.Node) bool {
+		switch m := m.(type) {
+		case *ast.FuncLit:
+			return m == body
+		case *ast.ForStmt, *ast.RangeStmt:
+			n++
+		}
+		return true
+	})
+	return n
+}
+
+// cmdLoops prints, for every unit whose contract has loop clauses, the contract file, the
+// line of its func / sub clause and the number of loops of its body on the current tree
+// (tools/pin_loops.py writes them into the contracts as `loops N`).
+func cmdLoops(args []string) int {
+	fs := flag.NewFlagSet("loops", flag.ExitOnError)
+	repo := fs.String("repo", "/repo", "repository root")
+	fs.Parse(args)
+	specs, err := LoadSpecs(filepath.Join(verifRoot, "specs"))
+	_ = specs
+	if err != nil {
+		fmt.Println(err)
+		return 2
+	}
+	ld := NewLoader(*repo)
+	db, err := LoadContracts(ld, *repo, filepath.Join(verifRoot, "contracts"))
+	if err != nil {
+		fmt.Println(err)
+		return 2
+	}
+	seen := map[string]bool{}
+	for _, path := range sortedKeys(db.files) {
+		cf := db.files[path]
+		pkg, err := ld.Load(path)
+		if err != nil {
+			continue
+		}
+		for i := 1; i <= 20; i++ {
+			id := fmt.Sprintf("C%02d", i)
+			us, _ := unitsOf(ld, db, pkg, cf, id)
+			for _, u := range us {
+				if u.Proc == nil || len(u.Proc.Loops) == 0 {
+					continue
+				}
+				var body ast.Node
+				if u.Lit != nil {
+					body = u.Lit.Body
+				} else if u.Decl != nil && u.Decl.Body != nil {
+					body = u.Decl.Body
+				}
+				if body == nil {
+					continue
+				}
+				key := fmt.Sprintf("%s\t%d", u.Proc.File, u.Proc.Line)
+				if seen[key] {
+					continue
+				}
+				seen[key] = true
+				fmt.Printf("%s\t%d\t%s\n", key, countLoops(body), u.Name)
+			}
+		}
+	}
+	return 0
 }
